@@ -92,7 +92,7 @@ func Marshal(w io.Writer, packet interface{}) (n int64, err error) {
 				} else {
 					err = ErrInvalidSequence
 				}
-				if v.CommandStatus != 0 {
+				if err == nil && v.CommandStatus != 0 {
 					goto write
 				}
 			case io.ByteReader:
